@@ -244,3 +244,41 @@ def move_matrix(ctx):
                         st, coll, t, "an object of the wrong type %r" % (bad,) if bad else "two objects with one UID"),
                         dict(case=[src_t, dst_t, dst_state, ow, same_coll]))
                     return
+
+
+def predefined_collections(ctx):
+    """[storage] predefined_collections is part of every new user's first request: a faulty value must be refused at start-up
+    or leave a store that lists and verifies."""
+    import json as _json
+    values = [
+        ("valid", {"def-cal": {"D:displayname": "Cal", "tag": "VCALENDAR"}, "def-adr": {"D:displayname": "Adr", "tag": "VADDRESSBOOK"}}),
+        ("tag-not-a-collection-type", {"c": {"tag": "VJOURNAL"}}),
+        ("list-valued-property", {"c": {"tag": "VCALENDAR", "C:supported-calendar-component-set": ["VEVENT", "VTODO"]}}),
+        ("number-valued-property", {"c": {"tag": "VCALENDAR", "D:displayname": 5}}),
+        ("nested-name", {"a/b": {"tag": "VCALENDAR"}}),
+        ("reserved-name", {".hidden": {"tag": "VCALENDAR"}}),
+        ("not-an-object", {"c": "VCALENDAR"}),
+    ]
+    for what, val in values:
+        ctx.case(("predefined", what), nontrivial=True)
+        try:
+            srv = impl.Server(conf={"auth": {"type": "none"}, "rights": {"type": "owner_only"},
+                                    "storage": {"predefined_collections": _json.dumps(val)}})
+            srv.__enter__()
+        except Exception as e:      # refused at start-up: fine
+            ctx.count("predefined:%s:refused-at-start" % what)
+            continue
+        try:
+            st, _ = srv.propfind("/newuser/", depth="1", props=("D:resourcetype", "D:displayname"), login="newuser:")
+            st2, _ = srv.propfind("/newuser/", depth="1", props=("D:resourcetype", "D:displayname"), login="newuser:")
+            try:
+                ok = bool(srv.application._storage.verify())
+            except Exception as e:  # noqa
+                ok = "raised %r" % (e,)
+            ctx.count("predefined:%s:%s/%s" % (what, st, st2))
+            if st2 >= 500 or st >= 500 or ok is not True:
+                ctx.violation("predefined_collections (%s) accepted at start-up, then the first login answers %s, the second %s, verifier %r" % (
+                    what, st, st2, ok), dict(value=val))
+                return
+        finally:
+            srv.__exit__(None, None, None)
